@@ -27,21 +27,27 @@ func runC12() {
 	type viewSpec struct {
 		last uint64
 		agg  bool
+		s32  bool
 	}
 	var specs []viewSpec
 	for _, l := range lasts {
-		specs = append(specs, viewSpec{l, false})
+		specs = append(specs, viewSpec{l, false, false})
 	}
 	// committees and sync subcommittees of 32: aggregator selection (modulo 2) really selects
-	specs = append(specs, viewSpec{10, true})
+	specs = append(specs, viewSpec{10, true, false})
+	// 32 sync seats for 16 validators: every validator sits in two different subcommittees
+	specs = append(specs, viewSpec{10, false, true})
 	if run.Tier == "thorough" {
-		specs = append(specs, viewSpec{18, true})
+		specs = append(specs, viewSpec{18, true, false}, viewSpec{18, false, true})
 	}
 	for _, vs := range specs {
 		last := vs.last
 		w := chainh.NewWorld(chainh.T4(chainh.AllForks), 1, 24)
 		if vs.agg {
 			w = chainh.NewWorld(chainh.TAgg(chainh.AllForks), 1, 130)
+		}
+		if vs.s32 {
+			w = chainh.NewWorld(chainh.TSync32(chainh.AllForks), 1, 24)
 		}
 		std, err := chainh.BuildStd(w, last)
 		if err != nil {
